@@ -276,7 +276,7 @@ func runC03Case(c *fw.Ctx, id string, cs c03Case) {
 	// later: those cases run with a read timeout beyond the quiescence bound
 	immediate := cs.BlockThen == "" && cs.Fault == nil && cs.ExtClose == 0 && cs.Server != "" && cs.Server != "silence"
 	if immediate {
-		readTimeout = 8 * time.Second
+		readTimeout = 30 * time.Second // beyond every bound below (4 s for the calls + the 10 s failure watchdog)
 		c.Count("immediate_detection_cases", 1)
 	}
 	logger := quietLogger
